@@ -465,7 +465,7 @@ theorem location_is_target_with_transformed_values (cf : CaseFns) (r : Rule) (pr
 /-- The token view of the rule's path: the percent-encoded source path with the percent-encoded marker
 expressions (`Rule::path_and_query`, `Rule::markers`). -/
 def pathTokens (r : Rule) : List Tok :=
-  tokens (pctEncode Rio.Consts.encSetRuleRsUrlEncodeSet r.path) r.routeMarkers
+  tokens (pctEncode Rio.Consts.markerPathEncodeSet r.path) r.routeMarkers
 
 /-- **End to end on the rule model** (the functions the correspondence check runs against the library).  A rule
 with markers in its path only and no explicit variables; a request whose normalised path is the instantiation `v`
@@ -490,7 +490,7 @@ theorem rule_end_to_end (E : Engine) (cf : CaseFns) (cfg : Config) (r : Rule) (q
     (r.outcome cf probe (r.capture E cf cfg q) q).location =
       [subst ((groupNames (pathTokens r)).map fun n => (n, markerValue cf r n (v n))) t] := by
   -- the path is dynamic: `MarkerString::new` returned `mstr`
-  have hnew : MarkerString.new (pctEncode Rio.Consts.encSetRuleRsUrlEncodeSet r.path) r.routeMarkers cfg.ignorePathCase
+  have hnew : MarkerString.new (pctEncode Rio.Consts.markerPathEncodeSet r.path) r.routeMarkers cfg.ignorePathCase
       = some mstr := by
     simp only [Rule.pathSoD, StaticOrDynamic.newWithMarkers] at hdyn
     split at hdyn
